@@ -332,3 +332,39 @@ def absWith (env : Env) (cwd : Str) (s : Str) : Outcome Str :=
     | .hang => .hang
 
 end Rivia
+
+namespace Rivia
+
+/-! ### Stdfs::abs — transcribed separately from `src/sys/fs/stdfs/mod.rs` (the code is a second
+    copy of the pipeline: empty check, expand, trim_protocol, clean, walk leading `.`/`..` against the
+    process cwd, mash) -/
+
+def absLoopStd : Nat → Str → Str → Outcome Str
+  | 0, curr, _ => .ok curr
+  | f + 1, curr, p =>
+    match (components p).head? with
+    | none => .ok curr
+    | some .cur => absLoopStd f curr (trimFirst p)
+    | some .parent =>
+      if curr = ['/'] then .err .parentNotFound
+      else match dir curr with
+        | .ok d => absLoopStd f d (trimFirst p)
+        | .err k => .err k
+        | .panic => .panic
+        | .hang => .hang
+    | some _ => .ok (mash curr p)
+
+def absStdWith (env : Env) (cwd : Str) (s : Str) : Outcome Str :=
+  if isEmpty s then .err .empty
+  else match expand env s with
+    | .ok p =>
+      match cleanO (trimProtocol p) with
+      | none => .panic
+      | some c =>
+        if isAbsolute c then .ok c
+        else absLoopStd ((components c).length + 1) cwd c
+    | .err k => .err k
+    | .panic => .panic
+    | .hang => .hang
+
+end Rivia
